@@ -608,34 +608,52 @@ Proof.
     rewrite <- orb_assoc, Eal, orb_false_r, Hk. reflexivity.
 Qed.
 
-(* ---------- the binder meets the specification on every lambda list made of sections ---------- *)
-Theorem binder_shape h args :
-  NoDup (names (ll_of h)) -> rest_nodef h -> guard_l (ll_of h) args = true ->
-  bind_M (build h) args = reorder (build h) (bind_S (ll_of h) args).
+(* ---------- the binder on every lambda list made of sections ---------- *)
+(* the scope handed to pass 2 *)
+Definition scope_of (st : p1) : list (N * value) :=
+  match p_rest st, p_restsym st with _ :: _, Some r => bind (p_b st) r (VList (p_rest st)) | _, _ => p_b st end.
+
+(* Inside the guard a call either is rejected by binder and specification alike, or pass 1 consumes every argument
+   and leaves the scope scope1 built from the specification's keyword/value pairs. *)
+Inductive shape_res (h : shape) (args : list arg) : Prop :=
+| SR_err k : bind_M (build h) args = OErr k -> bind_S (ll_of h) args = OErr k -> shape_res h args
+| SR_ok ps st :
+    pass1 (key_params (build h)) (has_allow (build h)) (build h) MReq (st0 args) = st -> p_err st = None -> p_args st = [] ->
+    (length (l_req (ll_of h)) <= length args)%nat ->
+    scope_of st = scope1 (ll_of h) ps args ->
+    bind_S (ll_of h) args = OBound (specl (ll_of h) ps args) -> ps = pairs_of (ll_of h) args ->
+    shape_res h args.
+
+Lemma pairs_of_a2 l args : pairs_of l args =
+  match l_key l with Some _ => match key_pairs (S (length (a2of l args))) (a2of l args) with Some ps => ps | None => [] end | None => [] end.
+Proof. reflexivity. Qed.
+
+Theorem binder_shape_res h args :
+  rest_nodef h -> guard_l (ll_of h) args = true -> shape_res h args.
 Proof.
-  intros Hnd Hrd Hg. unfold guard_l in Hg.
+  intros Hrd Hg. unfold guard_l in Hg.
   assert (Hm : posmode (match h_opt h with Some _ => MOpt | None => MReq end)) by (destruct (h_opt h); [right|left]; reflexivity).
   pose proof (key_params_build h) as Hks. pose proof (has_allow_build h) as Hal.
   set (KS := key_params (build h)) in *. set (AL := has_allow (build h)) in *.
   pose proof (pass1_build KS AL h args) as Hp1.
   destruct (Nat.le_gt_cases (length (l_req (ll_of h))) (length args)) as [Hlen|Hshort].
   2:{ (* too few arguments: both reject *)
-    rewrite bind_S_short by exact Hshort. cbn [reorder].
+    apply (SR_err _ _ KTooFew); [|apply bind_S_short; exact Hshort].
     assert (Ea : a2of (ll_of h) args = []) by (unfold a2of; apply skipn_all2; lia).
     rewrite Ea in Hp1. rewrite (pass1_noargs _ _ (restsec _ ++ _)) in Hp1 by reflexivity.
     unfold bind_M. fold (st0 args). fold KS AL. cbv zeta. rewrite Hp1. cbn [p_err p_args]. rewrite req_count_build.
     destruct (Nat.ltb_spec (length args) (length (l_req (ll_of h)))); [reflexivity|lia]. }
-  rewrite (bind_S_sections _ _ Hlen).
+  pose proof (bind_S_sections _ _ Hlen) as HS. pose proof (pairs_of_a2 (ll_of h) args) as HP.
   destruct (a2of (ll_of h) args) as [|a rem] eqn:Ea2.
   - (* all arguments are consumed by the positional parameters *)
     rewrite (pass1_noargs _ _ (restsec _ ++ _)) in Hp1 by reflexivity.
-    rewrite (bind_M_bound h args [] _ Hrd Hlen Hp1 eq_refl eq_refl).
-    2:{ cbn [p_rest p_restsym p_b]. unfold scope1. rewrite Ea2. destruct (l_rest (ll_of h)); reflexivity. }
-    rewrite scope_reorder by assumption.
-    destruct (l_key (ll_of h)) as [ks|] eqn:Ek.
-    + cbn [length key_pairs forallb negb]. rewrite andb_false_r. symmetry. apply reorder_specl; assumption.
-    + destruct (l_rest (ll_of h)); symmetry; apply reorder_specl; assumption.
-  - cbn [ll_of l_key l_rest l_aux l_req l_opt] in Hg |- *.
+    apply (SR_ok _ _ [] _ Hp1 eq_refl eq_refl Hlen).
+    + unfold scope_of. cbn [p_rest p_restsym p_b]. unfold scope1. rewrite Ea2. destruct (l_rest (ll_of h)); reflexivity.
+    + rewrite HS. destruct (l_key (ll_of h)) as [ks|] eqn:Ek.
+      * cbn [length key_pairs forallb negb]. rewrite andb_false_r. reflexivity.
+      * destruct (l_rest (ll_of h)); reflexivity.
+    + rewrite HP. destruct (l_key (ll_of h)); reflexivity.
+  - cbn [ll_of l_key l_rest l_aux l_req l_opt] in Hg, HS, HP.
     destruct (h_rest h) as [[df [r dr]]|] eqn:Er, (h_key h) as [[dk ks]|] eqn:Ek.
     + (* &rest and &key with arguments left: outside the guard *)
       exfalso. apply Nat.leb_le in Hg. unfold a2of in Ea2. cbn [ll_of l_req l_opt] in Ea2.
@@ -644,10 +662,8 @@ Proof.
       assert (Hp1' : pass1 KS AL (build h) MReq (st0 args) =
                      {| p_args := []; p_b := posb (ll_of h) args; p_rest := a :: rem; p_restsym := Some r; p_err := None |}).
       { rewrite Hp1, Hks. cbn [vars map restsec vsec app]. apply pass1_restsec; [exact Hm|discriminate]. }
-      rewrite (bind_M_bound h args [] _ Hrd Hlen Hp1' eq_refl eq_refl).
-      2:{ cbn [p_rest p_restsym p_b]. unfold scope1. cbn [ll_of l_rest]. rewrite Er, Ea2. unfold keysl. cbn [ll_of l_key]. rewrite Ek. reflexivity. }
-      rewrite scope_reorder by assumption.
-      symmetry; apply reorder_specl; assumption.
+      apply (SR_ok _ _ [] _ Hp1' eq_refl eq_refl Hlen); [|exact HS|symmetry; exact HP].
+      unfold scope_of. cbn [p_rest p_restsym p_b]. unfold scope1. cbn [ll_of l_rest]. rewrite Er, Ea2. unfold keysl. cbn [ll_of l_key]. rewrite Ek. reflexivity.
     + (* &key: the remaining arguments are keyword/value pairs *)
       assert (Hp1' : pass1 KS AL (build h) MReq (st0 args) =
                      match key_loop (S (length (a :: rem))) (map fst ks) (match h_allow h with Some _ => true | None => false end) (a :: rem) (a :: rem) (posb (ll_of h) args) with
@@ -660,18 +676,27 @@ Proof.
       * rewrite (key_loop_pairs _ _ _ _ _ _ _ Ekp) in Hp1'.
         pose proof (pairs_accepted h (a :: rem) ps Ekp) as Hacc. rewrite Ek in Hacc. cbn [vars] in Hacc. rewrite Hacc in Hp1'.
         destruct (negb (keys_allowed (ll_of h) ps) && negb (forallb (fun p => key_known ks (fst p)) ps)); cbn [negb] in Hp1'.
-        -- cbn [reorder]. apply (bind_M_err _ _ _ _ Hp1'). reflexivity.
-        -- rewrite (bind_M_bound h args ps _ Hrd Hlen Hp1' eq_refl eq_refl).
-           2:{ cbn [p_rest p_restsym p_b]. unfold scope1. cbn [ll_of l_rest]. rewrite Er. unfold keysl. cbn [ll_of l_key]. rewrite Ek. reflexivity. }
-           rewrite scope_reorder by assumption.
-           symmetry; apply reorder_specl; assumption.
+        -- apply (SR_err _ _ KBadKey); [apply (bind_M_err _ _ _ _ Hp1'); reflexivity|exact HS].
+        -- apply (SR_ok _ _ ps _ Hp1' eq_refl eq_refl Hlen); [|exact HS|symmetry; exact HP].
+           unfold scope_of. cbn [p_rest p_restsym p_b]. unfold scope1. cbn [ll_of l_rest]. rewrite Er. unfold keysl. cbn [ll_of l_key]. rewrite Ek. reflexivity.
       * rewrite key_loop_nopairs in Hp1' by (try exact Ekp; cbn [length]; lia).
-        cbn [reorder]. apply (bind_M_err _ _ _ _ Hp1'). reflexivity.
+        apply (SR_err _ _ KBadKey); [apply (bind_M_err _ _ _ _ Hp1'); reflexivity|exact HS].
     + (* neither: too many arguments *)
       assert (Hp1' : pass1 KS AL (build h) MReq (st0 args) =
                      {| p_args := a :: rem; p_b := posb (ll_of h) args; p_rest := []; p_restsym := None; p_err := None |}).
       { rewrite Hp1. cbn [restsec vsec app]. rewrite pass1_allowsec, pass1_auxsec by (try exact Hm; reflexivity). reflexivity. }
-      cbn [reorder]. apply (bind_M_toomany _ _ _ Hp1'); [reflexivity|discriminate].
+      apply (SR_err _ _ KTooMany); [apply (bind_M_toomany _ _ _ Hp1'); [reflexivity|discriminate]|exact HS].
+Qed.
+
+(* ---------- the binder meets the specification on every lambda list made of sections ---------- *)
+Theorem binder_shape h args :
+  NoDup (names (ll_of h)) -> rest_nodef h -> guard_l (ll_of h) args = true ->
+  bind_M (build h) args = reorder (build h) (bind_S (ll_of h) args).
+Proof.
+  intros Hnd Hrd Hg. destruct (binder_shape_res h args Hrd Hg) as [k HM HS|ps st Hst He Ha Hlen Hsc HS _].
+  - rewrite HM, HS. reflexivity.
+  - rewrite (bind_M_bound h args ps st Hrd Hlen Hst He Ha Hsc), HS.
+    rewrite scope_reorder by assumption. symmetry; apply reorder_specl; assumption.
 Qed.
 
 (* ---------- from sections back to arbitrary lambda lists ---------- *)
